@@ -160,7 +160,17 @@ def run(ctx: C.Ctx):
         ctx.evaluations += 1
         ctx.count(f"sspor:{bk}/{ok}")
         try:
-            model = SSPOR(basis=models.make_basis(bk, nm), optimizer=opt).fit(X.copy(), quiet=True, seed=rng.randint(0, 99))
+            bobj = models.make_basis(bk, nm)
+            model = SSPOR(basis=bobj, optimizer=opt).fit(X.copy(), quiet=True, seed=rng.randint(0, 99))
+            if rng.random() < 0.3:
+                # one basis object shared by several models (one model per fold / per sensor budget): a later model trained on other
+                # data of the same shape must not reach into this model's own basis matrix
+                X2 = np.array([[rng.randint(-6, 6) for _ in range(nf)] for _ in range(ne)], dtype=float)
+                try:
+                    SSPOR(basis=bobj, optimizer={"qr": QR, "ccqr": CCQR, "gqr": GQR}[ok]()).fit(X2, quiet=True, seed=1)
+                    ctx.count("sspor:basis_object_shared_with_a_later_model")
+                except ValueError:
+                    pass
         except ValueError:
             ctx.count("sspor_rejected")
             continue
